@@ -26,6 +26,7 @@ type GenerateSettings struct {
 	typeUnmarshallers map[string]string
 	typeLengthers     map[string]string
 	customRecordTypes map[string]struct{}
+	enumSizes         map[string]uint8
 
 	ImportGenerationMode
 	imported          []File
@@ -402,6 +403,7 @@ func (f File) Generate(inputWriter io.Writer, settings GenerateSettings) error {
 	settings.typeUnmarshallers = f.typeUnmarshallers(settings)
 	settings.typeLengthers = f.typeLengthers()
 	settings.customRecordTypes = f.customRecordTypes()
+	settings.enumSizes = f.enumSizes()
 
 	usedTypes := f.usedTypes()
 	if settings.PackageName == "" && f.GoPackage != "" {
@@ -633,7 +635,7 @@ func writeFieldReadByter(name string, typ FieldType, w *iohelp.ErrorWriter, sett
 		writeLineWithTabs(w, "%ASGN = make([]%TYPE, iohelp.ReadUint32Bytes(buf[at:]))", depth, name, typ.Array.goString(settings))
 		writeLineWithTabs(w, "at += 4", depth)
 		if safe {
-			if sz, ok := fixedSizeTypes[typ.Array.Simple]; ok {
+			if sz, ok := settings.fixedSize(typ.Array.Simple); ok {
 				writeLengthCheck(w, "len(%ASGN)*"+strconv.Itoa(int(sz)), depth, name)
 				safe = false
 			}
@@ -676,7 +678,7 @@ func writeFieldReadByter(name string, typ FieldType, w *iohelp.ErrorWriter, sett
 		if format, ok := settings.typeByteReaders[simpleTyp+hintSafeKey]; ok && safe {
 			writeLineWithTabs(w, format, depth, name, typ.goString(settings))
 		} else {
-			if sz, ok := fixedSizeTypes[simpleTyp]; ok && safe {
+			if sz, ok := settings.fixedSize(simpleTyp); ok && safe {
 				writeLengthCheck(w, strconv.Itoa(int(sz)), depth, name)
 			}
 			writeLineWithTabs(w, settings.typeByteReaders[simpleTyp], depth, name, typ.goString(settings))
@@ -726,7 +728,7 @@ func typeNeedsElem(typ string, settings GenerateSettings) bool {
 func writeFieldBodyCount(name string, typ FieldType, w io.Writer, settings GenerateSettings, depth int) {
 	if typ.Array != nil {
 		writeLineWithTabs(w, "bodyLen += 4", depth)
-		if sz, ok := fixedSizeTypes[typ.Array.Simple]; ok {
+		if sz, ok := settings.fixedSize(typ.Array.Simple); ok {
 			// short circuit-- write length times elem size
 			writeLineWithTabs(w, "bodyLen += len(%ASGN) * "+strconv.Itoa(int(sz)), depth, name)
 			return
